@@ -1,5 +1,6 @@
 import Sismic.Json
 import Sismic.Model.Clock
+import Sismic.Model.Bdd
 /-!
 # Sismic.Cases — interpretation of protocol cases by the model (dispatch on `kind`)
 -/
@@ -180,6 +181,59 @@ def runIO (kind : String) (j : Json) : P Json := do
     let c ← chart (← fld j "chart")
     return ofImport (importYamlData 64 (exportDict c))
 
+/-! ## BDD cases -/
+
+def kvs (j : Json) : P (List (String × Val)) := do
+  (← arr j).mapM (fun p => do
+    match (← arr p) with
+    | [k, v] => do return ((← k.getStr?), (← val v))
+    | _ => throw "bad pair")
+
+partial def bddAct (j : Json) : P Bdd.Act := do
+  match (← arr j) with
+  | [.str "nothing"] => return .doNothing
+  | [.str "send", n, ps] => return .send (← n.getStr?) (← kvs ps)
+  | [.str "wait", n] => return .wait (← n.getInt?)
+  | [.str "repeat", a, n] => return .repeat_ (← bddAct a) (← n.getNat?)
+  | _ => throw s!"bad act {j.compress}"
+
+def bddAssertion (j : Json) : P Bdd.Assertion := do
+  match (← arr j) with
+  | [.str "entered", s] => return .entered (← s.getStr?)
+  | [.str "not_entered", s] => return .notEntered (← s.getStr?)
+  | [.str "exited", s] => return .exited (← s.getStr?)
+  | [.str "not_exited", s] => return .notExited (← s.getStr?)
+  | [.str "active", s] => return .active (← s.getStr?)
+  | [.str "not_active", s] => return .notActive (← s.getStr?)
+  | [.str "fired", n, ps] => return .fired (← n.getStr?) (← kvs ps)
+  | [.str "not_fired", n] => return .notFired (← n.getStr?)
+  | [.str "no_event"] => return .noEventFired
+  | [.str "var_eq", v, x] => return .varEquals (← v.getStr?) (← val x)
+  | [.str "var_ne", v, x] => return .varNotEquals (← v.getStr?) (← val x)
+  | [.str "expr", c] => return .exprHolds (← code c)
+  | [.str "not_expr", c] => return .exprNotHolds (← code c)
+  | [.str "final"] => return .final
+  | [.str "not_final"] => return .notFinal
+  | _ => throw s!"bad assertion {j.compress}"
+
+def bddStep (j : Json) : P Bdd.Step := do
+  match (← arr j) with
+  | [.str "given", a] => return .act .given (← bddAct a)
+  | [.str "when", a] => return .act .when_ (← bddAct a)
+  | [.str "then", a] => return .check (← bddAssertion a)
+  | [.str "undefined"] => return .undefined_
+  | _ => throw s!"bad step {j.compress}"
+
+def ofStatus : Bdd.Status → Json
+  | .passed => .str "passed" | .failed => .str "failed" | .error => .str "error"
+  | .hookError => .str "hook_error" | .undefined_ => .str "undefined" | .skipped => .str "skipped"
+
+def runBdd (j : Json) : P Json := do
+  let c ← chart (← fld j "chart")
+  let scs ← (← arr (← fld j "scenarios")).mapM (fun s => do (← arr s).mapM bddStep)
+  let outs := scs.map (fun steps => Json.arr ((Bdd.runScenario (Bdd.initCtx c) steps).map ofStatus).toArray)
+  return Json.mkObj [("scenarios", .arr outs.toArray)]
+
 /-! ## clock cases (over `Rat`) -/
 
 def rat (j : Json) : P Rat :=
@@ -225,6 +279,7 @@ def run1 (j : Json) : P Json := do
   | "interp" => runInterp j
   | "clock" => runClock j
   | "edit" => runEdit j
+  | "bdd" => runBdd j
   | "io_import" => runIO "io_import" j
   | "io_export" => runIO "io_export" j
   | "io_roundtrip" => runIO "io_roundtrip" j
